@@ -35,6 +35,7 @@ import (
 	"github.com/btcsuite/btcd/btcec/v2"
 	"github.com/btcsuite/btcd/btcutil/v2"
 	"github.com/btcsuite/btcd/chainhash/v2"
+	"github.com/btcsuite/btcd/txscript/v2"
 	"github.com/btcsuite/btcd/wire/v2"
 	"github.com/lightningnetwork/lnd/channeldb"
 	"github.com/lightningnetwork/lnd/chanstate"
@@ -45,6 +46,7 @@ import (
 	"github.com/lightningnetwork/lnd/lnwallet/chainfee"
 	"github.com/lightningnetwork/lnd/lnwire"
 	"github.com/lightningnetwork/lnd/shachain"
+	"github.com/lightningnetwork/lnd/tlv"
 )
 
 // ---------------------------------------------------------------------------
@@ -789,6 +791,192 @@ func (p *c01Pair) DumpNode(sb *strings.Builder, x int) {
 }
 
 // ---------------------------------------------------------------------------
+// second-level HTLC transactions (C01 only; lines J and V)
+// ---------------------------------------------------------------------------
+
+// keyRingFor derives the key ring of the commitment at `height` on node x's
+// chain `whose`, like SignNextCommitment / ReceiveNewCommitment do.
+func (p *c01Pair) keyRingFor(x int, whose lntypes.ChannelParty, height uint64) (*CommitmentKeyRing, uint32, error) {
+	st := p.Ch[x].channelState
+	producer := st.RevocationProducer
+	if whose.IsRemote() {
+		producer = p.Ch[1-x].channelState.RevocationProducer
+	}
+	secret, err := producer.AtIndex(height)
+	if err != nil {
+		return nil, 0, err
+	}
+	point := input.ComputeCommitmentPoint(secret[:])
+	ring := DeriveCommitmentKeys(
+		point, whose, st.ChanType, &st.LocalChanCfg, &st.RemoteChanCfg,
+	)
+	var lease uint32
+	if st.ChanType.HasLeaseExpiration() {
+		lease = st.ThawHeight
+	}
+	return ring, lease, nil
+}
+
+func c01B2i(b bool) int {
+	if b {
+		return 1
+	}
+	return 0
+}
+
+// c01JobSigHash is the digest the signer's job signs.
+func c01JobSigHash(job *SignJob, taproot bool) ([]byte, error) {
+	sd := &job.SignDesc
+	if taproot {
+		return txscript.CalcTapscriptSignaturehash(
+			sd.SigHashes, sd.HashType, job.Tx, 0, sd.PrevOutputFetcher,
+			txscript.NewBaseTapLeaf(sd.WitnessScript),
+		)
+	}
+	return txscript.CalcWitnessSigHash(
+		sd.WitnessScript, sd.SigHashes, sd.HashType, job.Tx, 0,
+		sd.Output.Value,
+	)
+}
+
+// dumpSignJobs: node x has just signed its new remote commitment.  The jobs
+// are what the production genRemoteHtlcSigJobs derives for that commitment
+// (unsorted: incoming HTLCs first); for every job the position of the HTLC
+// signature of commitment_signed that really signs it is found by verifying
+// the signatures against the job's digest (-1: none does).
+//   J X h= n=<number of htlc sigs> | T:<sigpos>:<jobOutputIndex>:<success>:<locktime>:<sequence>:
+//       <outValue>:<prevValue>:<hashType>:<version>:<nIn>:<nOut>:<prevIndex>:<prevHashOk>:<digest>
+func (p *c01Pair) dumpSignJobs(sb *strings.Builder, x int, sigs *CommitSigs) {
+	ch := p.Ch[x]
+	st := ch.channelState
+	name := string(rune('A' + x))
+	c := ch.commitChains.Remote.tip()
+	res := "ok"
+	defer func() {
+		if r := recover(); r != nil {
+			fmt.Fprintf(sb, "J %s h=%d n=%d err=panic |\n", name, c.height, len(sigs.HtlcSigs))
+		}
+	}()
+	ring, lease, err := p.keyRingFor(x, lntypes.Remote, c.height)
+	var jobs []SignJob
+	var aux []AuxSigJob
+	if err == nil {
+		jobs, aux, _, err = genRemoteHtlcSigJobs(
+			ring, st, lease, c, fn.None[AuxLeafStore](),
+		)
+	}
+	if err != nil {
+		res = "err"
+	}
+	var out strings.Builder
+	taproot := st.ChanType.IsTaproot()
+	txHash := c.txn.TxHash()
+	for j := range jobs {
+		job := &jobs[j]
+		digest, err := c01JobSigHash(job, taproot)
+		pos := -1
+		if err == nil {
+			for i := range sigs.HtlcSigs {
+				sg := sigs.HtlcSigs[i]
+				if taproot {
+					sg.ForceSchnorr()
+				}
+				s, err := sg.ToSignature()
+				if err == nil && s.Verify(digest, ring.LocalHtlcKey) {
+					pos = i
+					break
+				}
+			}
+		}
+		if len(digest) > 8 {
+			digest = digest[:8]
+		}
+		op := job.Tx.TxIn[0].PreviousOutPoint
+		fmt.Fprintf(&out, " T:%d:%d:%d:%d:%d:%d:%d:%d:%d:%d:%d:%d:%d:%s", pos, job.OutputIndex,
+			c01B2i(!aux[j].Incoming), job.Tx.LockTime, job.Tx.TxIn[0].Sequence,
+			job.Tx.TxOut[0].Value, job.SignDesc.Output.Value, uint32(job.SignDesc.HashType),
+			job.Tx.Version, len(job.Tx.TxIn), len(job.Tx.TxOut), op.Index,
+			c01B2i(op.Hash == txHash), hex.EncodeToString(digest))
+	}
+	fmt.Fprintf(sb, "J %s h=%d n=%d err=%s |%s\n", name, c.height, len(sigs.HtlcSigs), res, out.String())
+}
+
+// dumpVerifyJobs: node y has just accepted a commitment_signed.  K tokens:
+// from the state, which signature of the message was stored with which HTLC
+// of the new local commitment; Q tokens: the verification jobs the production
+// genHtlcSigValidationJobs derives (job position = signature position).
+//   V Y h= n= | K:<sigpos>:<o|i>:<htlcIndex>:<localOutputIndex> ... Q:<jobpos>:<htlcIndex>:<digest> ...
+func (p *c01Pair) dumpVerifyJobs(sb *strings.Builder, y int, sigs *CommitSigs) {
+	ch := p.Ch[y]
+	st := ch.channelState
+	name := string(rune('A' + y))
+	c := ch.commitChains.Local.tip()
+	defer func() {
+		if r := recover(); r != nil {
+			fmt.Fprintf(sb, "V %s h=%d n=%d err=panic |\n", name, c.height, len(sigs.HtlcSigs))
+		}
+	}()
+	taproot := st.ChanType.IsTaproot()
+	var wsigs [][]byte
+	for i := range sigs.HtlcSigs {
+		sg := sigs.HtlcSigs[i]
+		if taproot {
+			sg.ForceSchnorr()
+		}
+		s, err := sg.ToSignature()
+		if err != nil {
+			wsigs = append(wsigs, nil)
+			continue
+		}
+		wsigs = append(wsigs, s.Serialize())
+	}
+	var out strings.Builder
+	emit := func(hs []paymentDescriptor, dir string) {
+		for i := range hs {
+			h := &hs[i]
+			if h.sig == nil {
+				continue
+			}
+			pos := -1
+			ser := h.sig.Serialize()
+			for k, w := range wsigs {
+				if w != nil && bytes.Equal(w, ser) {
+					pos = k
+					break
+				}
+			}
+			fmt.Fprintf(&out, " K:%d:%s:%d:%d", pos, dir, h.HtlcIndex, h.localOutputIndex)
+		}
+	}
+	emit(c.outgoingHTLCs, "o")
+	emit(c.incomingHTLCs, "i")
+	res := "ok"
+	ring, lease, err := p.keyRingFor(y, lntypes.Local, c.height)
+	if err == nil {
+		cp := append([]lnwire.Sig(nil), sigs.HtlcSigs...)
+		var vjobs []VerifyJob
+		vjobs, _, err = genHtlcSigValidationJobs(
+			st, c, ring, cp, lease, fn.None[AuxLeafStore](),
+			fn.None[AuxSigner](), fn.None[tlv.Blob](),
+		)
+		for j := range vjobs {
+			digest, derr := vjobs[j].SigHash()
+			if derr != nil {
+				digest = nil
+			}
+			if len(digest) > 8 {
+				digest = digest[:8]
+			}
+			fmt.Fprintf(&out, " Q:%d:%d:%s", j, vjobs[j].HtlcIndex, hex.EncodeToString(digest))
+		}
+	}
+	if err != nil {
+		res = "err"
+	}
+	fmt.Fprintf(sb, "V %s h=%d n=%d err=%s |%s\n", name, c.height, len(sigs.HtlcSigs), res, out.String())
+}
+
+// ---------------------------------------------------------------------------
 // schedule generator
 // ---------------------------------------------------------------------------
 
@@ -801,6 +989,7 @@ type c01Sched struct {
 	lastOwn [2]*c01Act // last successful add per node (duplicate families)
 	dead bool    // a delivery was rejected: the link would have failed
 	tamper bool  // this case ends with a corrupted commitment_signed
+	second bool  // C01 only: J / V lines on the second-level HTLC transactions
 
 	stats map[string]int
 }
@@ -833,12 +1022,21 @@ func (s *c01Sched) runAct(x int, a c01Act) string {
 	s.emit(fmt.Sprintf("%s %s%s => %s%s q=%d,%d\n", name, a.Kind, args, res, extra,
 		len(s.p.Q[0]), len(s.p.Q[1])))
 	s.dump(x)
+	if s.second && a.Kind == "sign" && res == "ok" && len(s.p.Q[x]) > 0 {
+		var sb strings.Builder
+		s.p.dumpSignJobs(&sb, x, s.p.Q[x][len(s.p.Q[x])-1].sigs)
+		s.w.WriteString(sb.String())
+	}
 	s.stats["op_"+a.Kind]++
 	s.stats["res_"+strings.SplitN(res, ":", 2)[0]]++
 	return res
 }
 
 func (s *c01Sched) runDeliver(d int) string {
+	var sigs *CommitSigs
+	if len(s.p.Q[d]) > 0 && s.p.Q[d][0].kind == "commitsig" {
+		sigs = s.p.Q[d][0].sigs
+	}
 	kind, res := s.p.Deliver(d)
 	dir := "AB"
 	if d == 1 {
@@ -847,6 +1045,11 @@ func (s *c01Sched) runDeliver(d int) string {
 	s.emit(fmt.Sprintf("D %s %s => %s q=%d,%d\n", dir, kind, res,
 		len(s.p.Q[0]), len(s.p.Q[1])))
 	s.dump(1 - d)
+	if s.second && sigs != nil && res == "ok" {
+		var sb strings.Builder
+		s.p.dumpVerifyJobs(&sb, 1-d, sigs)
+		s.w.WriteString(sb.String())
+	}
 	s.stats["deliver_"+kind]++
 	s.stats["res_"+strings.SplitN(res, ":", 2)[0]]++
 	if res != "ok" {
@@ -1326,6 +1529,29 @@ func (s *c01Sched) deliverAll(d int, always bool) {
 	}
 }
 
+// finishDance: both nodes sign whenever they owe a signature and everything
+// in flight is delivered, with restart attempts after every step, until
+// nothing moves any more.
+func (s *c01Sched) finishDance(always bool) {
+	for i := 0; i < 6 && !s.dead; i++ {
+		progress := false
+		for z := 0; z < 2 && !s.dead; z++ {
+			ch := s.p.Ch[z]
+			if ch.OweCommitment() && !ch.commitChains.Remote.hasUnackedCommitment() {
+				if s.runAct(z, c01Act{Kind: "sign"}) == "ok" {
+					progress = true
+				}
+				s.maybeRestart(always)
+			}
+		}
+		s.deliverAll(0, always)
+		s.deliverAll(1, always)
+		if !progress {
+			break
+		}
+	}
+}
+
 // pipeCase: pipelined (non lock-step) rounds with restarts.  In every round
 // node x sends updates and a commitment_signed that stays in flight (its
 // updates are delivered or not); meanwhile y sends updates and its own
@@ -1350,6 +1576,30 @@ func (s *c01Sched) pipeCase(always bool, maxAdds int, tail int) {
 	for round, rounds := 0, 2+r.Intn(3); round < rounds && !s.dead; round++ {
 		x := r.Intn(2)
 		y := 1 - x
+		if r.Intn(2) == 0 {
+			// delayed counter-signature: y processes x's updates and signature
+			// completely (it revokes, but does not sign yet), x receives the
+			// revocation and sends further updates, which reach y - possibly
+			// restarted in between - before y signs for anything
+			for i, n := 0, 1+r.Intn(2); i < n; i++ {
+				s.someUpdate(x)
+				s.maybeRestart(always)
+			}
+			if s.p.Ch[x].OweCommitment() && !s.p.Ch[x].commitChains.Remote.hasUnackedCommitment() {
+				s.runAct(x, c01Act{Kind: "sign"})
+				s.maybeRestart(always)
+			}
+			s.deliverAll(x, always)
+			s.deliverAll(y, always)
+			for i, n := 0, 1+r.Intn(2); i < n && !s.dead; i++ {
+				s.someUpdate(x)
+				s.maybeRestart(always)
+			}
+			s.deliverAll(x, always)
+			s.stats["pipe_delayed_countersig_rounds"]++
+			s.finishDance(always)
+			continue
+		}
 		// x: updates + signature
 		for i, n := 0, r.Intn(3); i < n; i++ {
 			s.someUpdate(x)
@@ -1381,23 +1631,7 @@ func (s *c01Sched) pipeCase(always bool, maxAdds int, tail int) {
 		// the rest of the dance
 		s.deliverAll(x, always)
 		s.deliverAll(y, always)
-		for i := 0; i < 6 && !s.dead; i++ {
-			progress := false
-			for z := 0; z < 2 && !s.dead; z++ {
-				ch := s.p.Ch[z]
-				if ch.OweCommitment() && !ch.commitChains.Remote.hasUnackedCommitment() {
-					if s.runAct(z, c01Act{Kind: "sign"}) == "ok" {
-						progress = true
-					}
-					s.maybeRestart(always)
-				}
-			}
-			s.deliverAll(0, always)
-			s.deliverAll(1, always)
-			if !progress {
-				break
-			}
-		}
+		s.finishDance(always)
 	}
 	// a random asynchronous tail under the link discipline, restarts after every step
 	for i := 0; i < tail && !s.dead; i++ {
@@ -1444,14 +1678,19 @@ func TestVerifC01(t *testing.T) {
 	w := bufio.NewWriterSize(f, 1<<20)
 	defer w.Flush()
 
-	perKind, maxSteps, maxAdds := 24, 50, 8
-	perPipe, pipeTail := 5, 12
+	// quick tier: volume moved to the thorough tier in round 7 (24 -> 16 random
+	// schedules and 5 -> 4 pipelined cases per channel type)
+	perKind, maxSteps, maxAdds := 16, 50, 8
+	perPipe, pipeTail := 4, 12
 	if tier == "thorough" {
 		perKind, maxSteps, maxAdds = 120, 130, 14
 		perPipe, pipeTail = 24, 30
 	}
 	if v, err := strconv.Atoi(os.Getenv("VERIF_C01_CASES")); err == nil && v > 0 {
 		perKind = v
+	}
+	if v, err := strconv.Atoi(os.Getenv("VERIF_C01_PIPE")); err == nil && v > 0 {
+		perPipe = v
 	}
 
 	fmt.Fprintf(w, "FACT commitWeight=%d anchorCommitWeight=%d taprootCommitWeight=%d htlcWeight=%d "+
@@ -1474,7 +1713,7 @@ func TestVerifC01(t *testing.T) {
 				if err != nil {
 					t.Fatalf("pair: %v", err)
 				}
-				s := &c01Sched{r: r, p: pair, w: w, stats: stats}
+				s := &c01Sched{r: r, p: pair, w: w, stats: stats, second: true}
 				s.tamper = c%6 == 5
 				w.WriteString(c01CaseHeader(caseID, "sched", p, pair))
 				s.dump(0)
@@ -1508,7 +1747,7 @@ func TestVerifC01(t *testing.T) {
 				if err != nil {
 					t.Fatalf("pair: %v", err)
 				}
-				s := &c01Sched{r: r, p: pair, w: w, stats: stats}
+				s := &c01Sched{r: r, p: pair, w: w, stats: stats, second: true}
 				w.WriteString(c01CaseHeader(caseID, "pipe", p, pair))
 				s.dump(0)
 				s.dump(1)
